@@ -10,6 +10,7 @@ pub use crate::fft_helper::{
     fft_helper_immut, fft_helper_immut_unroll2x, fft_helper_inplace, fft_helper_inplace_unroll2x,
     fft_helper_outofplace, fft_helper_outofplace_unroll2x,
 };
+pub use crate::twiddles::{compute_twiddle, fill_bluesteins_twiddles};
 pub use crate::math_utils::{
     distinct_prime_factors, modular_exponent, primitive_root, PartialFactors, PrimeFactor,
     PrimeFactors,
